@@ -34,6 +34,9 @@ package receiver
 //@ func (r *Receiver) RunOnce
 //@   requires lock_free_on_entry: !held(r.mu)
 //@   goroutine
+//@   loop 2 ghost loc_notified := 0
+//@   after_call receiver.(*Downloader).NotifyNewSnapshot#0 ghost loc_notified := 1
+//@   loop 2 step every_new_name_is_notified: ghost_loc_notified == 1 || ni.FullName == lastNotified.FullName || (!includingOwn && inst == r.ownInstance)
 //@   lockcheck
 //@   modifies heap
 //@ func (r *Receiver) getDownloader
@@ -46,6 +49,7 @@ package receiver
 //@   modifies heap
 //@ func (d *Downloader) Run
 //@   requires lock_free_on_entry: !held(d.r.mu)
+//@   loop 0 step newest_listed_name_is_handled: !exists || ni.FullName == d.last.FullName
 //@   lockcheck
 //@   modifies heap
 //@   loop 0 invariant lock_free: !held(d.r.mu)
